@@ -243,6 +243,19 @@ func TestC15(t *testing.T) {
 					t.Fatalf("%s reported success although the writer accepted only %d of %d bytes and reported %v\n%s", kind, len(w.Accepted), total, werr, desc())
 				}
 			}
+			// a transient fault: exactly one Write call is refused, all later ones are accepted - the output was not
+			// completely accepted by the writer, whatever succeeded afterwards
+			for call := 1; call <= ok.Calls && call <= 400; call++ {
+				w := &faults.FailWriter{Limit: -1, FailCall: call, Err: werr}
+				var err error
+				if perr := hx.Safely(func() { err = write(w) }); perr != nil {
+					t.Fatalf("%s panicked with the writer refusing Write call %d of %d: %v\n%s", kind, call, ok.Calls, perr, desc())
+				}
+				if w.Failed && err == nil {
+					t.Fatalf("%s reported success although the writer refused Write call %d (of %d without fault) and accepted %d of %d bytes\n%s", kind, call, ok.Calls, len(w.Accepted), total, desc())
+				}
+			}
+			evC15.ClassN(kind+":write-calls-refused-once", int64(ok.Calls))
 			evC15.ClassN(kind+":positions", int64(total))
 			if total > 4096 {
 				evC15.Class(kind + ":output>4KiB")
